@@ -22,14 +22,14 @@ RULE = (
     "could run concurrently (unlimited peak > k); distinct = (program shape, k, policy, form)."
 )
 ASSUMPTIONS = [
-    "the bound is on function-node bodies (what the limiter governs); gate and interrupt-handler functions are synchronous decisions",
+    "the bound is on function-node bodies and asynchronous interrupt-handler bodies; gate functions and synchronous handlers are instantaneous decisions that cannot overlap anything",
     "quiescence is read exactly from the event loop's ready queue",
 ]
 DECIDING = ["limited_runs", "quiescent_points", "bodies_entered"]
 THOROUGH_SHARDS = 12
 
 
-def gen_wide(rng, depth, name="w0", prefix="", counter=None):
+def gen_wide(rng, depth, name="w0", prefix="", counter=None, mapped=False):
     counter = counter if counter is not None else [0]
     P = prefix
     nodes = []
@@ -47,14 +47,18 @@ def gen_wide(rng, depth, name="w0", prefix="", counter=None):
             ns["async"] = False
         nodes.append(ns)
         outs.append(f"{P}v{i}")
+    if not mapped and rng.random() < 0.25:
+        # an auto-answering ASYNC interrupt handler: its body suspends like any node body and must hold a permit
+        nodes.append({"k": "int", "name": f"{P}ask", "params": [{"n": "x"}], "outs": [f"{P}ans"], "handler": ["auto", f"ans:{P}"], "async": True})
     inputs = {"x": "run:x"}
     if depth > 0:
         for j in range(rng.randint(1, 2)):
             counter[0] += 1
             cn = f"n{counter[0]}"
-            inner, inner_inputs = gen_wide(rng, depth - 1, name=cn, prefix=f"{cn}_", counter=counter)
+            do_map = rng.random() < 0.5
+            inner, inner_inputs = gen_wide(rng, depth - 1, name=cn, prefix=f"{cn}_", counter=counter, mapped=mapped or do_map)
             sub = {"k": "sub", "name": cn, "prog": inner}
-            if rng.random() < 0.5:
+            if do_map:
                 # mapped over a list: fan-out at this level
                 fan = rng.randint(1, 4)
                 sub["rename_in"] = [{"x": f"{cn}_xs"}]
@@ -89,10 +93,11 @@ def norm(o):
 def one(ctx, i):
     rng = ctx.rng
     depth = rng.randint(0, 3)
-    spec, inputs = gen_wide(rng, depth)
+    use_map = rng.random() < 0.3
+    spec, inputs = gen_wide(rng, depth, mapped=use_map)
     form = "run"
     map_kw = {}
-    if rng.random() < 0.3:
+    if use_map:
         form = "runner.map"
         n = rng.randint(1, 4)
         inputs = dict(inputs)
@@ -133,6 +138,7 @@ def one(ctx, i):
             ctx.obs["limited_runs"] += 1
             ctx.obs["quiescent_points"] += sched.quiescent_points
             ctx.obs["bodies_entered"] += o.rec.count("enter")
+            ctx.obs["handler_bodies_entered"] += sum(1 for e in o.rec.ev if e[0] == "enter" and rt.KIND.get(e[1]) == "int-async")
             c2 = {**case, "k": k, "policy": pol, "yield_injection": bool(procs)}
             if o.deadlock:
                 ctx.violation("C15:deadlock", f"k={k} {pol}: loop quiescent, nothing parked, call not finished (permits leaked or held across a nested run); unlimited run completes", c2)
@@ -162,8 +168,8 @@ def sequence_case(ctx, i):
     from hypergraph import AsyncRunner
 
     rng = ctx.rng
-    spec1, in1 = gen_wide(rng, rng.randint(0, 1), name="wa", prefix="a_")
-    spec2, in2 = gen_wide(rng, rng.randint(0, 1), name="wb", prefix="b_")
+    spec1, in1 = gen_wide(rng, rng.randint(0, 1), name="wa", prefix="a_", mapped=True)
+    spec2, in2 = gen_wide(rng, rng.randint(0, 1), name="wb", prefix="b_", mapped=True)
     # make the second program wide enough to exceed a small limit
     for j in range(4):
         spec2["nodes"].append({"k": "fn", "name": f"b_extra{j}", "params": [{"n": "x"}], "outs": [f"b_ev{j}"], "async": True})
